@@ -101,7 +101,8 @@ macro_rules! create_derive(
         #[proc_macro_derive($trait_, attributes($($attribute),*))]
         #[doc = include_str!(concat!("../doc/", $feature, ".md"))]
         pub fn $fn_name(input: TokenStream) -> TokenStream {
-            let ast = syn::parse(input).unwrap();
+            let mut ast = syn::parse(input).unwrap();
+            utils::normalize_invisible_groups(&mut ast);
             Output::process($mod_$(:: $mod_rest)*::expand(&ast, stringify!($trait_)))
         }
     }
